@@ -174,7 +174,7 @@ class SimpleSparse:
                 if i < 0:
                     A[T * (-i) + (T + 1) * m::T + 1] += x
                 else:
-                    A[i + (T + 1) * m:(T - i) * T:T + 1] += x
+                    A[i + (T + 1) * m:max(T - i, 0) * T:T + 1] += x
             return A.reshape((T, T))
 
     def __radd__(self, A):
